@@ -248,7 +248,7 @@ def check_against_events(ctx, doc, rqs, events):
                               f'from the figures its own propagation ended with (reported, observed): {diff}')
 
 
-def check_entry(ctx, entry, rq, path, rpath, group):
+def check_entry(ctx, entry, rq, path, rpath, group, equipment=None):
     rid = entry.get('response-id')
     where = f'response {rid}'
     reason = getattr(rq, 'blocking_reason', None)
@@ -304,11 +304,36 @@ def check_entry(ctx, entry, rq, path, rpath, group):
     elif exp != got:         # (expected values on the left: they carry the "rounded to two decimals" comparison)
         diff = {k: (got.get(k), exp[k]) for k in exp if exp[k] != got.get(k)}
         ctx.violation('metrics', f'{where}: reported metrics differ from the forward receiver: {diff}')
+    # the reported mode is the one the reported figures were computed with: the figure in 0.1 nm and the one in the signal
+    # bandwidth differ by the ratio of that mode's baud rate to 12.5 GHz (two rounded values: 0.011 dB)
+    mode_name = trxs[0]['transponder-mode'] if trxs else None
+    if equipment is not None and mode_name is not None and rq.tsp in equipment['Transceiver'] and \
+            not any(isinstance(v, float) and math.isnan(v) for v in got.values()):
+        md = next((m for m in equipment['Transceiver'][rq.tsp].mode if m['format'] == mode_name), None)
+        if md is not None:
+            ctx.count('reported_mode_vs_figures_checks')
+            for key in ('path-metric', 'z-a-path-metric'):
+                if key not in props:
+                    continue
+                mm = {e['metric-type']: e['accumulative-value'] for e in props[key]}
+                for a, b in (('SNR-0.1nm', 'SNR-bandwidth'), ('OSNR-0.1nm', 'OSNR-bandwidth')):
+                    if isinstance(mm.get(a), (int, float)) and isinstance(mm.get(b), (int, float)) and \
+                            math.isfinite(mm[a]) and math.isfinite(mm[b]):
+                        exp_d = 10 * math.log10(md['baud_rate'] / 12.5e9)
+                        if abs((mm[a] - mm[b]) - exp_d) > 0.0111:
+                            ctx.violation('mode-and-figures-disagree', f'{where}: reported mode {mode_name} '
+                                          f'({md["baud_rate"] * 1e-9:.1f} GBd) but {key} {a} - {b} = {mm[a] - mm[b]:.2f} dB, '
+                                          f'a baud rate of {12.5 * 10 ** ((mm[a] - mm[b]) / 10):.1f} GBd')
+                            break
     if rq.bidir:
         ctx.count('bidirectional')
-        if not rpath:
-            if 'z-a-path-metric' in props:
-                ctx.violation('reverse-metrics', f'{where}: reverse metrics reported but no reverse propagation exists')
+        if 'z-a-path-metric' not in props:
+            # every bidirectional request that got as far as a propagation (served, or blocked by its mode or by the
+            # spectrum) states both directions
+            ctx.violation('reverse-metrics-missing', f'{where}: bidirectional request ({reason or "served"}) with forward '
+                          'metrics but without the Z to A direction')
+        elif not rpath:
+            ctx.violation('reverse-metrics', f'{where}: reverse metrics reported but no reverse propagation exists')
         else:
             expr = expected_metrics(rpath[-1], rq)
             gotr = {e['metric-type']: e['accumulative-value'] for e in props.get('z-a-path-metric', [])}
@@ -467,7 +492,7 @@ def run_case(case, ctx):
             ctx.violation('response-order', f'entry {entry["response-id"]} does not match request {rq.request_id}')
             continue
         g = next(g for g in groups if frozenset(g['ids']) == frozenset(rq.request_id.split(' | ')))
-        check_entry(ctx, entry, rq, path, rpath, g)
+        check_entry(ctx, entry, rq, path, rpath, g, equipment)
         reasons.add(getattr(rq, 'blocking_reason', None))
     check_csv(ctx, doc, equipment, rqs, prop, rprop, margin)
     check_csv_pass_threshold(ctx, doc, ej, rqs, prop, margin)
